@@ -25,7 +25,7 @@ PY_VALUES = ['s:abc', 's:', 's:true', 's:12', 's:a b', 's:héllo', 's:null', 'i:
              'i:123456789012345678901', 'f:1.5', 'f:0.0', 'f:-0.0', 'f:inf', 'f:-inf', 'f:nan',
              'f:1e300', 'f:1e-07', 'f:3.0', 'b:true', 'b:false', 'n:']
 DEFAULTS = ['n:', 'i:0', 'i:3', 'f:1.5', 'f:3.0', 'f:3.7', 's:abc', 's:', 's:3', 'b:true', 'b:false',
-            'l:', 'd:']
+            'l:', 'd:', 'f:inf', 'f:-inf', 'f:nan', 's:1.5', 's:true', 's:null', 'i:1']
 
 
 KEYS = ['a', 'b', 'c', 'ab', 'A', 'f', 'x_y', 'k-1']
